@@ -244,9 +244,9 @@ def r3_index(ctx):
             naming = {
                 'TokenCategory.BARLINES == token.category': 'bar',
                 'TokenCategory.is_child(child=token.category, parent=TokenCategory.CORE)': 'core',
-                f'0 == len({idx})': 'first',
+                f'nonempty({idx})': 'notfirst',
             }
-            eq, cex, unknown = G.compare(fm, lambda v: v['bar'] or (v['core'] and v['first']), naming)
+            eq, cex, unknown = G.compare(fm, lambda v: v['bar'] or (v['core'] and not v['notfirst']), naming)
             ctx.check(eq and not unknown, 'R3', f'{run_.module.relpath}:{owner.lineno}', run_.qualname, 'measure-start-guard',
                       'a row opens a measure iff it holds a barline, or core material while no measure is open yet',
                       f'the measure-start guard `{G.show(fm)[:160]}` differs from `BARLINES or (under CORE and index empty)`'
@@ -288,5 +288,5 @@ def r4_iteration(ctx):
         for sp in symex.func_sym_paths(f):
             if sp.end == 'raise':
                 c = G.show(sp.condition())
-                ctx.check(c in ('0 == len(self.measure_start_tree_stages)',), 'R4', f.loc, f.qualname, f'{f.name}-raises-only-when-empty',
+                ctx.check(c in ('not (nonempty(self.measure_start_tree_stages))', 'not nonempty(self.measure_start_tree_stages)'), 'R4', f.loc, f.qualname, f'{f.name}-raises-only-when-empty',
                           f'{f.name} raises only for a document without measures', f'{f.name} raises when `{c}`')
